@@ -53,6 +53,46 @@ class C10(Check):
                 if not es or not (min(es) * (1 - 1e-12) <= v <= max(es) * (1 + 1e-12)):
                     viol.append(dict(key='LineEnergy %d %d E' % (Z, g), got=repr(v), expected='between %r' % ([min(es), max(es)] if es else 'no member has an energy'),
                                      what='group energy outside the range of its member energies'))
+        # ---- L-beta (macro 3): the cross-section-weighted mean of exactly its member lines — the Siegbahn aliases LB1..LB17 of the
+        #      header plus L3N6, L3N7, each weighted by CS_FluorLine at 0.1 keV above the edge of the member's own shell (the shell is
+        #      read off the member's NAME); an error when no member carries weight.  Computed from the library's own primitives.
+        import json, re as _re
+        from vlib.core import hx
+        hv = json.load(open(ctx.sc.path('aux', 'hdr_vals.json')))
+        ints = {n_: v_['value'] for n_, v_ in hv.items() if v_['kind'] == 'I'}
+        name_of = {}
+        for n_, v_ in ints.items():
+            if n_.endswith('_LINE') and _re.fullmatch(r'L[123][MNOPQ]\d+_LINE', n_): name_of.setdefault(v_, n_[:-5])
+        memb = [ints[k + '_LINE'] for k in ('LB1', 'LB2', 'LB3', 'LB4', 'LB5', 'LB6', 'LB7', 'LB9', 'LB10', 'LB15', 'LB17', 'L3N6', 'L3N7')]
+        shell_of = {m: {'L1': 1, 'L2': 2, 'L3': 3}[name_of[m][:2]] for m in memb if m in name_of}
+        nlb = 0
+        if len(shell_of) == len(memb):
+            q1 = ['EdgeEnergy %d %d N' % (Z, sh) for Z in range(1, 121) for sh in (1, 2, 3)]
+            edge = {}
+            for l, o in zip(q1, ctx.run_c(q1)):
+                _, Z, sh, _ = l.split(); edge[(int(Z), int(sh))] = core.parse_answer(o)['vals'][0]
+            q2 = []
+            for Z in range(1, 121):
+                for m in memb:
+                    q2.append('CS_FluorLine %d %d %s N' % (Z, m, hx(edge[(Z, shell_of[m])] + 0.1)))
+            w = dict(zip(q2, [core.parse_answer(o) for o in ctx.run_c(q2)]))
+            for Z in range(1, 121):
+                num = den = 0.0; ok_ = True
+                for m in memb:
+                    pw = w['CS_FluorLine %d %d %s N' % (Z, m, hx(edge[(Z, shell_of[m])] + 0.1))]
+                    if pw['kind'] != 'ok': ok_ = False; break
+                    wt = pw['vals'][0]
+                    den += wt; num += val.get(('LineEnergy', Z, m), 0.0) * wt
+                if not ok_: continue
+                nlb += 1
+                co = c[cl.index('LineEnergy %d 3 E' % Z)]
+                exp = ('value ' + hx(num / den)) if den > 0 else 'fails'
+                if not core.expect_agrees(co, exp, rel=1e-12, stats=stats):
+                    viol.append(dict(key='LineEnergy %d 3 E' % Z, got=co, expected=(exp + (' = %r' % (num / den) if den > 0 else '')),
+                                     what='L-beta energy: not the cross-section-weighted mean of its member lines (LB1-LB7, LB9, LB10, LB15, LB17, L3N6, L3N7; weights CS_FluorLine at edge + 0.1 keV)'))
+        else:
+            viol.append(dict(key='include/xraylib-lines.h', got=str(sorted(set(memb) - set(shell_of))), expected='every L-beta member alias resolves to an L-line macro', what='L-beta member list'))
+        stats['lbeta_elements_checked'] = nlb
         stats.update(rule='exhaustive: Z in [-3,125] x every macro value in [-390,7] (all 383 lines, the 4 Siegbahn groups, 7 doublets, KO/KP, aliases share values) for LineEnergy and RadRate; '
                           'non-trivial = calls where a value is expected', distinct_nontrivial=len(nontriv), group_values=ngroup, exhaustive=True,
                      samples=[dict(call=cl[i], impl=c[i], expected=e[i]) for i in (0, len(cl) // 2 + 7, len(cl) - 1)])
